@@ -16,6 +16,8 @@ import (
 
 // Options control one verification run of a function.
 type Options struct {
+	NoCtxSkip bool // keep the whole script as context of return obligations
+	NoAutoFrame bool // do not add the automatic frame invariants to loops
 	Sweep bool // generate no-panic obligations instead of assuming absence of run-time panics
 }
 
@@ -69,6 +71,7 @@ type retInfo struct {
 	val   Val
 	st    *State
 	pos   string
+	ctxLen int // script length when the return was executed
 }
 
 type deferred struct {
@@ -97,6 +100,8 @@ type Frame struct {
 	iters  map[ssa.Value]string // map iterator -> visited state name
 	headState map[*ssa.BasicBlock]*State
 	args   []Val
+	allow  map[string]*frameAllowed // what the function's modifies clauses allow to change (evaluated once, at entry)
+	loopMods map[*ssa.BasicBlock][]string // heaps havocked at each loop head (automatic frame invariants)
 }
 
 type nameCand struct {
@@ -213,10 +218,12 @@ func (e *Exec) get(st *State, name string, sort Sort) string {
 	if _, have := e.Out.declared[Sym(name+"!0")]; have {
 		return Sym(name + "!0")
 	}
+	e.Out.BeginGlobal()
 	sym := e.Out.Declare(name+"!0", sort)
 	if name != "$top" {
 		e.wellFormed(name, sym, e.entry)
 	}
+	e.Out.EndGlobal()
 	return sym
 }
 
@@ -534,6 +541,7 @@ func (e *Exec) VerifyFunction(fn *ssa.Function, ctr *Contract) (err error) {
 	e.Top, e.Ctr = fn, ctr
 	if ctr != nil {
 		e.reveal = ctr.Reveal
+		e.Out.Focus = ctr.Focus
 	}
 	e.siteCount = map[string]int{}
 	e.boxed = map[string]bool{}
@@ -574,6 +582,14 @@ func (e *Exec) VerifyFunction(fn *ssa.Function, ctr *Contract) (err error) {
 		}
 	}
 	res, exitSt, exitGuard := e.runFrame(fr, st, "true")
+	endBody := len(e.Out.Lines)
+	// obligations of one return statement do not need what was learnt from code that runs after it was reached
+	addRet := func(o *Obligation, r retInfo) {
+		if r.ctxLen > 0 && r.ctxLen < endBody && !e.Opt.NoCtxSkip {
+			o.SkipFrom, o.SkipTo = r.ctxLen, endBody
+		}
+		e.Out.AddObl(o)
+	}
 	// vacuity: some return must be reachable
 	e.Out.AddObl(&Obligation{Name: FuncKey(fn) + "/cover:return", Func: FuncKey(fn), Kind: "cover", Label: "return", Formula: Not(exitGuard), Expect: "sat", Text: "some return is reachable under the preconditions"})
 	if ctr != nil {
@@ -588,18 +604,18 @@ func (e *Exec) VerifyFunction(fn *ssa.Function, ctr *Contract) (err error) {
 			}
 			// reachability of this return: a refutable guard means the path is dead (dead code, or excluded by the
 			// contracts); its negation canaries are then meaningless and are dropped by PostProcess
-			e.Out.AddObl(&Obligation{Name: FuncKey(fn) + "/canary:reach" + suffix, Func: FuncKey(fn), Kind: "reach", Label: "reach" + suffix, Text: "return at " + r.pos + " is reachable",
-				Formula: Not(r.guard), Expect: "sat"})
+			addRet(&Obligation{Name: FuncKey(fn) + "/canary:reach" + suffix, Func: FuncKey(fn), Kind: "reach", Label: "reach" + suffix, Text: "return at " + r.pos + " is reachable",
+				Formula: Not(r.guard), Expect: "sat"}, r)
 			for _, c := range ctr.ExitHints {
 				t := e.evalBool(c, env2)
-				e.Out.AddObl(&Obligation{Name: FuncKey(fn) + "/hint:exit:" + c.Label + suffix, Func: FuncKey(fn), Kind: "hint", Label: c.Label, Text: c.Text, Src: c.Src,
-					Formula: Imp(r.guard, t), Inputs: e.obsInputs(fr), Obs: e.lastObs})
+				addRet(&Obligation{Name: FuncKey(fn) + "/hint:exit:" + c.Label + suffix, Func: FuncKey(fn), Kind: "hint", Label: c.Label, Text: c.Text, Src: c.Src,
+					Formula: Imp(r.guard, t), Inputs: e.obsInputs(fr), Obs: e.lastObs}, r)
 				e.assume(r.guard, t)
 			}
 			for _, c := range ctr.Ensures {
 				t := e.evalBool(c, env2)
-				e.Out.AddObl(&Obligation{Name: FuncKey(fn) + "/ensures:" + c.Label + suffix, Func: FuncKey(fn), Kind: "ensures", Label: c.Label, Text: c.Text + "   [return at " + r.pos + "]", Src: c.Src,
-					Formula: Imp(r.guard, t), Inputs: e.obsInputs(fr), Obs: e.lastObs})
+				addRet(&Obligation{Name: FuncKey(fn) + "/ensures:" + c.Label + suffix, Func: FuncKey(fn), Kind: "ensures", Label: c.Label, Text: c.Text + "   [return at " + r.pos + "]", Src: c.Src,
+					Formula: Imp(r.guard, t), Inputs: e.obsInputs(fr), Obs: e.lastObs}, r)
 				// goal-directed vacuity guard: the negation of the clause must not be provable as well
 				e.Out.AddObl(&Obligation{Name: FuncKey(fn) + "/canary:not-" + c.Label + suffix, Func: FuncKey(fn), Kind: "canary", Label: "not-" + c.Label, Text: "negation of ensures[" + c.Label + "] must not be provable on this return path (context consistency, goal-directed)",
 					Formula: Imp(r.guard, Not(t)), Expect: "sat"})
@@ -610,7 +626,13 @@ func (e *Exec) VerifyFunction(fn *ssa.Function, ctr *Contract) (err error) {
 			if len(fr.rets) > 1 {
 				suffix = fmt.Sprintf("@r%d", k+1)
 			}
+			n0 := len(e.Out.Obls)
 			e.frameObligations(fr, r.st, r.guard, env, suffix)
+			if r.ctxLen > 0 && r.ctxLen < endBody && !e.Opt.NoCtxSkip {
+				for _, o := range e.Out.Obls[n0:] {
+					o.SkipFrom, o.SkipTo = r.ctxLen, endBody
+				}
+			}
 		}
 		_, _ = exitSt, exitGuard
 	}
@@ -1060,7 +1082,30 @@ func (e *Exec) enterLoop(fr *Frame, h *ssa.BasicBlock) (*State, string) {
 	}
 	envH := e.envForLoop(fr, h, st)
 	for _, c := range spec.Invariants {
-		e.Out.Assert(Imp(gh, e.evalBool(c, envH)))
+		e.Out.AssertTagged(Imp(gh, e.evalBool(c, envH)), c.Label)
+	}
+	// automatic frame invariants: what the loop may have changed is still within the function's frame
+	if fr.ctr != nil && fr.depth == 0 && !e.Opt.NoAutoFrame {
+		if fr.loopMods == nil {
+			fr.loopMods = map[*ssa.BasicBlock][]string{}
+		}
+		fr.loopMods[h] = nil
+		for _, name := range sortedKeys(mods) {
+			if name == "$top" {
+				continue
+			}
+			fe := e.frameQuantified(fr, name, e.get(stEntry, name, e.heapSorts[name]))
+			if fe != "true" {
+				e.Out.AddObl(&Obligation{Name: fmt.Sprintf("%s/inv-entry:loop%d:auto-frame:%s", FuncKey(fr.fn), ord, name), Func: FuncKey(fr.fn), Kind: "inv-entry", Label: "auto-frame", Text: "automatic frame invariant for " + name, Src: fr.ctr.Src,
+					Formula: Imp(gEntry, fe), Inputs: e.obsInputs(fr)})
+			}
+			fh := e.frameQuantified(fr, name, e.get(st, name, e.heapSorts[name]))
+			if fh == "true" {
+				continue
+			}
+			fr.loopMods[h] = append(fr.loopMods[h], name)
+			e.Out.Assert(Imp(gh, fh))
+		}
 	}
 	return st, gh
 }
@@ -1272,6 +1317,14 @@ func (e *Exec) backEdge(fr *Frame, p, h *ssa.BasicBlock) {
 		t := e.evalBool(c, env)
 		e.Out.AddObl(&Obligation{Name: fmt.Sprintf("%s/inv-pres:loop%d:%s%s", FuncKey(fr.fn), ord, c.Label, sfx), Func: FuncKey(fr.fn), Kind: "inv-pres", Label: c.Label, Text: c.Text, Src: c.Src,
 			Formula: Imp(g, t), Inputs: e.obsInputs(fr), Obs: e.lastObs})
+	}
+	for _, name := range fr.loopMods[h] {
+		fb := e.frameQuantified(fr, name, e.get(fr.out[p], name, e.heapSorts[name]))
+		if fb == "true" {
+			continue
+		}
+		e.Out.AddObl(&Obligation{Name: fmt.Sprintf("%s/inv-pres:loop%d:auto-frame:%s%s", FuncKey(fr.fn), ord, name, sfx), Func: FuncKey(fr.fn), Kind: "inv-pres", Label: "auto-frame", Text: "automatic frame invariant for " + name, Src: fr.ctr.Src,
+			Formula: Imp(g, fb), Inputs: e.obsInputs(fr)})
 	}
 	if spec.Decreases != nil {
 		after := e.evalSpec(spec.Decreases.E, env)
